@@ -437,6 +437,7 @@ def _is_empty_test(t, chunk):
 
 def _r3_report_chunk(ctx, prog, dets):
     ctx.rule("R-C01-3", floor=2, what="index-reporting process() reports len(chunk) exactly once on every normal path")
+    dets = [(ci, _expanded(prog, fi)) for ci, fi in dets]
     for ci, fi in dets:
         if not any(isinstance(c.func, ast.Attribute) and c.func.attr == "record_index" for c in calls_in(fi.node)):
             continue
@@ -509,8 +510,16 @@ def _length(e, L):
     return None
 
 
+def _expanded(prog, fi):
+    """process() with its private helper methods expanded (the chunk bookkeeping may live in extracted helpers); _new_turns and
+    the other rule anchors stay calls"""
+    from ..inline import inlined
+    return inlined(prog, fi, skip=("_new_turns", "_new_turns_multiple_assessment_points", "_flush_new_turns", "_preserve_start"))
+
+
 def _r4_lengths(ctx, prog, dets):
     ctx.rule("R-C01-4", floor=6, what="value array = index array + provisional last sample (lengths, inductive)")
+    dets = [(ci, _expanded(prog, fi)) for ci, fi in dets]
     for ci, fi in dets:
         ks = [s for s in walk_function(fi.node) if isinstance(s, ast.Assign) and isinstance(s.value, ast.Call)
               and (call_name(s.value) or "").endswith("point_loop")]
@@ -561,6 +570,12 @@ def _r4_lengths(ctx, prog, dets):
                              text="%s lengths" % case)
         # stores re-establish the invariant
         res_name = ks.targets[0].elts[-1].id if isinstance(ks.targets[0], ast.Tuple) else None
+        if res_name is None and isinstance(ks.targets[0], ast.Name):
+            # the kernel's result tuple is kept in one local and unpacked later
+            for s_ in walk_function(fi.node):
+                if isinstance(s_, ast.Assign) and isinstance(s_.value, ast.Name) and s_.value.id == ks.targets[0].id and \
+                        isinstance(s_.targets[0], ast.Tuple) and isinstance(s_.targets[0].elts[-1], ast.Name):
+                    res_name = s_.targets[0].elts[-1].id
         sv = [s for s in walk_function(fi.node) if isinstance(s, ast.Assign) and any(is_self_attr(t, "_residuals") for t in s.targets)]
         si = [s for s in walk_function(fi.node) if isinstance(s, ast.Assign) and any(is_self_attr(t, "_residual_index") for t in s.targets)]
         if not sv or not si or res_name is None:
